@@ -16,6 +16,63 @@ CLAIMS = {
         technique="runtime monitoring: specification oracle (reachability + child-before-parent order; longest-prefix map) over exhaustive small digraphs / key sequences and random large ones",
         text="All digraphs on <=3 nodes with self-loops and on 4 nodes (with self-loops in the thorough tier) x all root lists of length <=2, Sorter reuse after early stop, random graphs to 14 nodes; tries over all insertion sequences of bounded length over a 4-symbol alphabet incl. 0x00/0xff and random sets large enough to force the uint8->uint16->uint32 index growth. Termination is decided by a step budget, not by time.",
         note="Trusts the DFS reference and the map-based trie model. The by-design panic on cyclic input is a recorded known finding (F-C41-toposort-cycle-panic); any other behaviour on cyclic input (hang, duplicate, missing node) is still a violation."),
+
+    "C01": dict(
+        technique="runtime monitoring: recorded-oracle replay (protoc-verified R3 verdict tables) + by-construction generated programs + rule-tagged mutants, observed at Compiler.Compile",
+        text="Runs the real compiler on (a) all 452 protoc-verified cases of TestLinkerValidation/TestBasicValidation (verdict and recorded message set; these tests cannot run offline), (b) generated multi-file programs in several renderings that must be accepted, (c) mutants that break exactly one catalogued rule and must be rejected by that rule. Decided relative to protoc only on this recorded-and-derived domain (DESIGN.md §3); held on the cases explored.",
+        note="Trusts the R3 tables as protoc's verdicts, protodesc as cross-check that a generated model is valid, and the R3 anchoring of each mutation operator. protoc itself is not available."),
+    "C02": dict(
+        technique="runtime monitoring: differential against protoc's recorded descriptors (R1, R2) incl. derived re-renderings, and against by-construction models",
+        text="Compiles every corpus file for which protoc's own descriptor is recorded (protobuf-go rawDesc constants, repository protosets) from its source AND from randomised re-renderings of protoc's descriptor (layout, option syntax, numeric/string spelling), plus generated models; compares field by field after decoding options on both sides against one schema.",
+        note="Trusts the recorded descriptors, the renderer (calibrated: canonical re-rendering of every protoc descriptor compiles back to it) and an independent reference strip of source-retention options (calibrated on protoc's retention.proto output)."),
+    "C04": dict(
+        technique="runtime monitoring: differential of the compiler's protoreflect view against protodesc.NewFile of the compiled proto, attribute by attribute",
+        text="For every accepted generated model (emphasis on editions feature overrides) and corpus file, rebuilds the descriptors with the Go protobuf runtime and walks both in parallel comparing ~60 attributes per element, lookups included; also requires that the runtime accepts every compiled generated file.",
+        note="Trusts google.golang.org/protobuf v1.36.11 (built with protolegacy) as the reference."),
+    "C05": dict(
+        technique="runtime monitoring: self-differential under parallelism/order/schedule perturbation (build-tagged hook points) with the Go race detector",
+        text="Each generated valid or invalid multi-file set is compiled sequentially as reference and then under MaxParallelism 2-16, shuffled request orders and subsets, fresh shared Symbols and perturbed schedules; success and the deterministic bytes of every produced descriptor must agree. Race reports in compiler code are violations. Schedules are sampled; the number of distinct hook-event orders observed is reported.",
+        note="Trusts the race detector and deterministic marshalling; perturbation only at existing suspension points."),
+    "C06": dict(
+        technique="runtime monitoring: exhaustive small import digraphs x requested subsets x parallelism under schedule perturbation; reference graph analysis; logical quiescence criterion for hangs; hook-fed permit accounting",
+        text="All import graphs on <=3 files (self-imports included) and on 4 files, every requested subset, MaxParallelism 1/2/4/16, plus random graphs with long cycles and missing imports: a cycle error must be reported iff a cycle is reachable, every reported sequence must be a closed walk of real edges, the call must return, and semaphore permits stay within [0, MaxParallelism]. The abstract-model half of the property is out of reach for this technique.",
+        note="Known finding F-C06-cycle-masked-by-missing-import. Deadlock verdicts come from goroutine dumps (all compiler goroutines parked, two dumps identical), never from elapsed time."),
+    "C07": dict(
+        technique="fault enumeration at the resolver boundary (error / panic(v) / short read / cancellation at the k-th call) with goroutine-dump leak detection, one case per process at a time",
+        text="Every single fault on every file of four fixed graphs, every pair on the diamond, faults on the optional descriptor.proto probe, cancellation inside every resolver call, x MaxParallelism 1/2/8 x perturbation seeds: Compile must return, wrap the injected error or carry the panic value in a PanicError, let no panic escape, and leave no compiler goroutine behind.",
+        note="A cancellation that arrives when nothing remains to be done may let Compile succeed; that is recorded, not decided."),
+    "C08": dict(
+        technique="runtime monitoring at the reporter callback boundary: in-flight counter, abort-at-k policies, deliberately unsynchronised reporter under the race detector",
+        text="Valid sets with warnings and invalid sets with several planted errors are compiled with a never-aborting reporter and with reporters aborting at every k; checks non-overlapping callbacks, no error after abort, the returned error identity, ErrInvalidSource, and that warnings alone never fail a compilation.",
+        note="Races between two reporter callbacks called from library goroutines count as violations (race_accept lib+callback)."),
+    "C09": dict(
+        technique="runtime monitoring: self-differential over input-form assignments with before/after snapshots of supplied objects, concurrent reuse under the race detector",
+        text="For generated sets every sampled assignment of {source, AST, parse result, unlinked proto} per file x four source-info modes is compiled twice concurrently sharing the supplied objects; descriptors (and source info for AST-carrying forms) must equal the all-source result and supplied protos/parse results must be byte-identical afterwards.",
+        note="Trusts deterministic marshalling as equality."),
+    "C10": dict(
+        technique="runtime monitoring: fixpoint differential (compile, re-supply outputs as Proto / Desc, compare bytes, iterate once more)",
+        text="Every accepted generated and corpus set is recompiled from its own descriptor protos (second and third generation byte-identical) and from protodesc-built descriptors.",
+        note="In Desc mode `edition` and extension proto3_optional are masked because protodesc.ToFileDescriptorProto cannot recover them from a wrapped descriptor (instrument limit)."),
+    "C11": dict(technique="runtime monitoring: byte-for-byte round trip of an independent AST printer over corpus, trivia-randomised re-renderings, generated and mutated texts",
+        text="The property is its own oracle: leading comments, whitespace and raw text of every terminal in ast.Walk order plus EOF trivia must reproduce the input (minus BOM).", note="Trusts the reading of 'a token's comments' as NodeInfo leading+trailing comments."),
+    "C12": dict(technique="runtime monitoring: hostile byte inputs (random, token soup, truncations, mutations, invalid UTF-8, deep nesting) through parser.Parse/ResultFromAST with recover, two reporter policies and a byte-scan position reference; child process per batch",
+        text="No panic, non-nil AST, err iff an error was reported, every error position inside the file, ResultFromAST never panics.", note="Stack exhaustion is capped with debug.SetMaxStack and would surface as a process-crash violation."),
+    "C13": dict(technique="runtime monitoring: differential of every exposed position against a byte-scan reference, exhaustive over short strings of tabs/CR/LF/multi-byte characters",
+        text="Token, node, error and FileInfo.SourcePos positions at every character boundary are compared with line = 1+#LF, column = 1+chars with tab stops of 8; Start<=End for every node.", note="Columns compared on valid UTF-8 only."),
+    "C14": dict(technique="runtime monitoring: differential against a three-valued reference decoder written from the language spec, exhaustive short escapes and digit strings, observed in default_value / option values",
+        text="Only the decided domain of DESIGN.md §4 C14 produces verdicts; other behaviours are recorded.", note="Assumes reference == protoc on the decided domain (protoc unavailable)."),
+    "C16": dict(technique="runtime monitoring: Go race detector + joint-vs-split differential with planted collisions and concurrent lookups, perturbation at symbols.go hook points",
+        text="Universes of files sharing one linked dependency object are compiled jointly and split over 1-4 sequential or concurrent compilations sharing one Symbols while 4-16 goroutines call Lookup/LookupExtension; collisions must be found iff planted, lookups must be plausible, and no race may be reported in linker code.", note="Collision truth is known by construction."),
+    "C17": dict(technique="runtime monitoring: exhaustive import histories with reference views and a replica-table differential",
+        text="Every history of <=3 (quick) / <=4 (thorough) imports over a 12-file universe with planted collisions, for linker results and protodesc descriptors: after each failed Import all lookups are unchanged, the import fails again, and a replica built without the failed attempts behaves identically.", note="Known finding F-C17-extension-collision-leaves-symbols (not repaired)."),
+    "C25": dict(technique="runtime monitoring: differential fastscan.Scan vs full parser on accepted texts rich in decoys", text="Package, import order, public/weak flags must agree on every text the full parser accepts.", note="Trusts the full parser's answer."),
+    "C26": dict(technique="runtime monitoring: exhaustive byte strings over a 12-symbol alphabet + random, three independent read-backs", text="Default().Bytes() in protocompile's descriptor and in protodesc's, and a reference C-unescape of default_value, must return the intended bytes.", note="Trusts the escape speller and reference unescape."),
+    "C32": dict(technique="runtime monitoring: exhaustive short texts x every boundary offset x 3 units against a byte-scan reference", text="Round trip InverseLocation(Location(off)) == off and the line rule, exhaustive to length 6/8 over {a,é,€,😀,LF} plus random long texts.", note="Trusts utf8/strings of the standard library."),
+    "C33": dict(technique="runtime monitoring: exact sequential cache model + porcupine linearizability of recorded Run/Evict histories under hook perturbation and the race detector",
+        text="All labelled DAGs on <=4 nodes and random DAGs to 8 nodes under thousands of Run/Evict histories (concurrent Runs, concurrent Evicts): values, executions-between-evictions, eviction closure, Changed flags and Keys() are checked; the abstract-model half is out of reach.", note="Held on the histories and observed orders counted in the evidence."),
+    "C34": dict(technique="runtime monitoring: exhaustive small digraphs x panic sets x concurrent roots, logical quiescence criterion with exact goroutine attribution, semaphore probe, race detector",
+        text="All digraphs on <=3 nodes and random ones to 8 nodes with panicking nodes and concurrent Runs: Run returns, cycle errors name closed walks, panics surface as ErrPanic and are not cached, all permits are free afterwards.", note="Trusts the goroutine-dump parser and VerifPermitsFree."),
+    "C37": dict(technique="runtime monitoring: round trip ToProto -> Marshal -> AppendFromProto over an exhaustive grid and random reports, compared on accessors, by reflection and by re-encoding", text="Every level, 0-4 snippets, zero-width spans incl. EOF, empty files, multi-file, edits, page breaks.", note="Trusts protobuf-go marshal."),
 }
 
 NOT_CLAIMED = {}
